@@ -17,7 +17,7 @@
     `den (M.env G) σ' e σ` is the value of the expression `e` on the model (Y0/Spec/Sem.lean).
   * `G.Ranked` is acyclicity (a rank function increasing along directed edges); `TopoOrdered G topo`: no element of
     `topo` is a parent of an earlier one (Y0/Spec/TianSpec.lean).
-  * `ProbShape G.nodes q T`: when the given expression is a `Probability` it is `P_w(T | Z)` — see
+  * `ProbShape q T`: when the given expression is a `Probability` it is `P_w(T | Z)` — see
     Y0/Spec/TianSpec.lean for why the Lemma-1 branch (which dispatches on the TYPE of the expression and never reads
     its children) needs that; every other constructor carries no condition.
   * The preconditions "C ⊆ T", "T ⊆ topo", "G[T] is a single district" are CHECKED by the routine itself (it raises
@@ -54,7 +54,7 @@ topological listing `topo`, every `C`, `T` and every expression `q` that denotes
 theorem tian_sound (M : Scm) (G : MG Name) (hM : M.Compatible G) (hG : G.WF) (hrank : G.Ranked)
     (topo : List Name) (htnd : topo.Nodup) (hord : TopoOrdered G topo)
     (C T : List Name) (hCnd : C.Nodup) (hTnd : T.Nodup) (hT : ∀ t ∈ T, t ∈ G.nodes)
-    (q : Expr) (hshape : ProbShape G.nodes q T) (σ' : Val)
+    (q : Expr) (hshape : ProbShape q T) (σ' : Val)
     (hq : ∀ σ, den (M.env G) σ' q σ = M.Q T σ)
     (e : Expr) (h : identify G C T q topo = .ok (some e)) :
     ∀ σ, den (M.env G) σ' e σ = M.Q C σ := by
@@ -114,7 +114,7 @@ theorem tian_rejects_other_expressions (G : MG Name) (C T topo : List Name) (q :
 theorem tian_sound_acyclic (M : Scm) (G : MG Name) (hM : M.Compatible G) (hG : G.WF) (hac : G.Acyclic)
     (topo : List Name) (htnd : topo.Nodup) (hord : TopoOrdered G topo)
     (C T : List Name) (hCnd : C.Nodup) (hTnd : T.Nodup) (hT : ∀ t ∈ T, t ∈ G.nodes)
-    (q : Expr) (hshape : ProbShape G.nodes q T) (σ' : Val)
+    (q : Expr) (hshape : ProbShape q T) (σ' : Val)
     (hq : ∀ σ, den (M.env G) σ' q σ = M.Q T σ)
     (e : Expr) (h : identify G C T q topo = .ok (some e)) :
     ∀ σ, den (M.env G) σ' e σ = M.Q C σ :=
@@ -152,7 +152,7 @@ theorem cfactor_lemma1_sound (M : Scm) (G : MG Name) (hM : M.Compatible G) (hG :
     (H : List Name) (hnd : H.Nodup) (hsub : ∀ v ∈ H, v ∈ G.nodes) (htopo : TopoOrdered G H)
     (D : List Name) (hDnd : D.Nodup) (hDH : ∀ v ∈ D, v ∈ H) (hclosed : BiClosedIn G D H)
     (pop : Option Var) (ch pa : List Var) (e : Expr) (σ' : Val)
-    (hshape : ProbShape G.nodes (.prob pop ch pa) H)
+    (hshape : ProbShape (.prob pop ch pa) H)
     (hq : ∀ σ, den (M.env G) σ' (.prob pop ch pa) σ = M.Q H σ)
     (h : lemma1 D (.prob pop ch pa) H = .ok e) : ∀ σ, den (M.env G) σ' e σ = M.Q D σ :=
   TianSound.lemma1_sound hM hG hrank σ' H hnd hsub htopo D hDnd hDH hclosed pop ch pa e hshape hq h
@@ -164,7 +164,7 @@ theorem cfactor_sound (M : Scm) (G : MG Name) (hM : M.Compatible G) (hG : G.WF) 
     (hsub : ∀ v ∈ topo.filter (· ∈ S), v ∈ G.nodes)
     (D : List Name) (hDnd : D.Nodup) (hDH : ∀ v ∈ D, v ∈ topo.filter (· ∈ S))
     (hclosed : BiClosedIn G D (topo.filter (· ∈ S)))
-    (q e : Expr) (σ' : Val) (hshape : ProbShape G.nodes q (topo.filter (· ∈ S)))
+    (q e : Expr) (σ' : Val) (hshape : ProbShape q (topo.filter (· ∈ S)))
     (hq : ∀ σ, den (M.env G) σ' q σ = M.Q (topo.filter (· ∈ S)) σ)
     (h : computeCFactor D S q topo = .ok e) : ∀ σ, den (M.env G) σ' e σ = M.Q D σ :=
   TianSound.computeCFactor_sound hM hG hrank σ' topo S htnd hord hsub D hDnd hDH hclosed q e hshape hq h
@@ -225,8 +225,8 @@ example : identify g [0] [1, 2, 3] (.prob none [pl 1, pl 2, pl 3] [pl 0]) [0, 3,
     = .error (.invalidInput "KeyError") := by rfl
 
 /-- the shape hypothesis of `tian_sound` holds for the interventional input -/
-example : ProbShape g.nodes (.prob none [inZ 1, inZ 2, inZ 3] []) [1, 2, 3] :=
-  ⟨[⟨0, false⟩], by decide, by decide, by decide, by decide⟩
+example : ProbShape (.prob none [inZ 1, inZ 2, inZ 3] []) [1, 2, 3] :=
+  ⟨[⟨0, false⟩], by decide, by decide, by decide, by decide, by decide⟩
 
 /-- the order used above is topological for `g` -/
 example : TopoOrdered g [0, 3, 1, 2] := by
